@@ -89,6 +89,10 @@ var Mutants = []Mutant{
 	// C11
 	{ID: "string-index-bytes", Props: []string{"C11", "C13"}, Rule: "R-RUNES/pkg/evaluator", File: "pkg/evaluator/value.go", Find: "\trunes := s.runes()\n\ti, err := normalizeIndex(idx, len(runes), indexExpression)\n\tif err != nil {\n\t\treturn nil, err\n\t}\n\treturn &stringVal{V: string(runes[i])}, nil", Replace: "\ti, err := normalizeIndex(idx, len(s.V), indexExpression)\n\tif err != nil {\n\t\treturn nil, err\n\t}\n\treturn &stringVal{V: string(s.V[i])}, nil", Expect: "(*stringVal).Index#bytestring", Describe: "strings indexed by byte"},
 	{ID: "index-byte-offset", Props: []string{"C11", "C13"}, Rule: "R-RUNES/pkg/evaluator", File: "pkg/evaluator/builtin.go", Find: "\treturn &numVal{V: float64(utf8.RuneCountInString(s[:idx]))}, nil", Replace: "\treturn &numVal{V: float64(idx)}, nil", Expect: "indexFunc#bytestring", Describe: "index returns a byte offset"},
+	{ID: "index-lower-bound-off-by-one", Props: []string{"C11"}, Rule: "R-IDXPOST/pkg/evaluator", File: "pkg/evaluator/value.go", Find: "\tif i < -length || i > limit {\n\t\treturn 0, fmt.Errorf(\"%w: %d\", ErrBounds, i)", Replace: "\tif i < -length-1 || i > limit {\n\t\treturn 0, fmt.Errorf(\"%w: %d\", ErrBounds, i)", Expect: "normalizeIndex#post", Describe: "-n-1 is accepted and becomes position -1"},
+	{ID: "index-from-end-shifted", Props: []string{"C11"}, Rule: "R-IDXPOST/pkg/evaluator", File: "pkg/evaluator/value.go", Find: "\t\treturn length + i, nil // -1 references len-1 i.e. last element", Replace: "\t\treturn length + i + 1, nil", Expect: "normalizeIndex#", Describe: "negative indexes are shifted by one"},
+	{ID: "vm-index-upper-bound", Props: []string{"C17"}, Rule: "R-IDXPOST/pkg/bytecode", File: "pkg/bytecode/value.go", Find: "\tif i < -length || i > limit {", Replace: "\tif i < -length || i > limit+1 {", Expect: "normalizeIndex#post", Describe: "the VM accepts an index equal to the length"},
+	{ID: "slice-order-unchecked", Props: []string{"C11"}, Rule: "R-IDXPOST/pkg/evaluator", File: "pkg/evaluator/value.go", Find: "\tif startIdx > endIdx {", Replace: "\tif startIdx > endIdx+1 {", Expect: "normalizeSliceIndices#post", Describe: "a[3:2] reaches Go's slicing"},
 	// C12
 	{ID: "del-direct", Props: []string{"C12"}, Rule: "R-MAPENC", File: "pkg/evaluator/builtin.go", Find: "\tm.Delete(keyStr.V)\n", Replace: "\tdelete(m.Pairs, keyStr.V)\n", Expect: "delFunc", Describe: "del removes the key from the Go map only"},
 	{ID: "setkey-always-append", Props: []string{"C12"}, Rule: "R-MAPENC", File: "pkg/evaluator/value.go", Find: "\tif _, ok := m.Pairs[key]; !ok {\n\t\t*m.Order = append(*m.Order, key)\n\t}\n\tm.Pairs[key] = val", Replace: "\t*m.Order = append(*m.Order, key)\n\tm.Pairs[key] = val", Expect: "SetKey#body:order", Describe: "overwriting a key duplicates it in the order"},
